@@ -54,6 +54,7 @@ type opData struct {
 	which        string
 	missWhich    string
 	bad          bool // parameter value outside its valid range
+	foreign      bool // one-sided message naming a denomination outside the pool's pair
 }
 
 // Driver implements mc.Driver.
@@ -188,7 +189,8 @@ func (d *Driver) Enabled(e *mc.Env, s *mc.State) []mc.Op {
 		add("donate(stake)", opData{kind: "donate", who: "C", pool: "btc", side: std, amt: d.V.Amts[1]})
 		// a denom foreign to the pool: its escrow can receive it, but it must never count as a reserve
 		add("donate(eth->btc-pool)", opData{kind: "donate", who: "C", pool: "btc", side: "eth", amt: d.V.Amts[0]})
-		add("uniadd(C,btc,eth,a1)", opData{kind: "uniadd", who: "C", pool: "btc", side: "eth", amt: d.V.Amts[1], bound: "loose"})
+		add("uniadd(C,btc,eth,a1)", opData{kind: "uniadd", who: "C", pool: "btc", side: "eth", amt: d.V.Amts[1], bound: "loose", foreign: true})
+		add("!unirm(A,btc,eth,a1)", opData{kind: "unirm", who: "A", pool: "btc", side: "eth", amt: d.V.Amts[1], bound: "loose", foreign: true})
 		// a holder parks some of the pool's own liquidity tokens on the pool's escrow account
 		add("donate(lpt->btc-pool)", opData{kind: "donate", who: "A", pool: "btc", side: "lpt", amt: d.V.Amts[1]})
 		// a withdrawal that offers a coin which is not a liquidity token at all
@@ -266,6 +268,11 @@ func (d *Driver) Enabled(e *mc.Env, s *mc.State) []mc.Op {
 		add(fmt.Sprintf("%s(%s,btc,deadline=past)", k, who), v)
 	}
 	add("rmliq(A,btc,all)", opData{kind: "rmliq", who: "A", pool: "btc", all: true, bound: "loose"})
+	// a third denomination lands on the pool's escrow account by a plain transfer; one-sided messages naming it
+	// have nothing to do with the pool's pair and must never succeed
+	add("donate(eth->btc-pool)", opData{kind: "donate", who: "C", pool: "btc", side: "eth", amt: a})
+	add("!uniadd(C,btc,eth)", opData{kind: "uniadd", who: "C", pool: "btc", side: "eth", amt: a, bound: "loose", foreign: true})
+	add("!unirm(A,btc,eth)", opData{kind: "unirm", who: "A", pool: "btc", side: "eth", amt: a, bound: "loose", foreign: true})
 	// a withdrawal that offers a coin which is not a liquidity token at all (its name ends in the pool's sequence)
 	add("!rmliq(C,"+lookAlike+")", opData{kind: "rmliq-foreign", who: "C", pool: "btc", side: lookAlike, amt: a, bound: "loose"})
 	// a denom that sorts BEFORE the fixture pools' (the newest pool is then not the last one in denom order)
@@ -477,6 +484,12 @@ func (d *Driver) apply(e *mc.Env, s *mc.State, op mc.Op) []mc.Finding {
 		}
 		// a rejection (even with exactly-met bounds) moves nothing; the property speaks about successful messages
 		return fs
+	}
+	if od.foreign {
+		// the pool trades its token against the standard coin; a one-sided message naming any other denomination
+		// mints (or burns) liquidity against a coin that is no reserve of the pool
+		fs = append(fs, mc.F("C02/one-sided-message-in-foreign-denom-accepted/"+od.kind, "%s succeeded: %s is neither pool %s's token nor the standard coin; moved [%s]", op.Name, od.side, od.pool, got))
+		return append(fs, d.shareValue(e, s, op, od, mt, out, pre, params.Fee)...)
 	}
 	if od.kind == "rmliq-foreign" {
 		// "liquidity tokens are ... burned only against withdrawals, and ... no other coin's total supply changes":
